@@ -10,7 +10,7 @@ import ast
 from ..cfg import CFG
 from ..model import walk_shallow, call_name, is_self_attr, dotted_name, parent, ancestors, enclosing_function
 from ..util import (has_call, find_calls, assigned_value, const_str, unparse, kw, arg_or_kw, enclosing_stmt,
-                    guards_of, call_tail, control_ancestors, escape_path, nodes_where, node_ast_for_effects)
+                    guards_of, call_tail, control_ancestors, escape_path, nodes_where, node_ast_for_effects, name_bound, bound_names)
 from .. import mutate as M
 from . import c03
 
@@ -28,8 +28,35 @@ SNK = "coba/pipes/sinks.py"
 LNS = "coba/pipes/lines.py"
 
 
+class Roles:
+    """role-based local names of Multiprocessor.filter (robust to renaming)"""
+
+    def __init__(self, fn):
+        q = lambda v: isinstance(v, ast.Call) and call_tail(v) == "Queue"
+        self.in_queue = name_bound(fn, lambda v: q(v) and bool(v.keywords or v.args), "in_queue")
+        self.out_queue = name_bound(fn, lambda v: q(v) and not (v.keywords or v.args), "out_queue")
+        self.in_put = name_bound(fn, lambda v: isinstance(v, ast.Call) and call_name(v) == "QueueSink" and v.args and unparse(v.args[0]) == self.in_queue, "in_put")
+        self.out_put = name_bound(fn, lambda v: isinstance(v, ast.Call) and call_name(v) == "QueueSink" and v.args and unparse(v.args[0]) == self.out_queue, "out_put")
+        self.in_get = name_bound(fn, lambda v: isinstance(v, ast.Call) and call_name(v) == "QueueSource" and v.args and unparse(v.args[0]) == self.in_queue, "in_get")
+        self.out_get = name_bound(fn, lambda v: isinstance(v, ast.Call) and call_name(v) == "QueueSource" and v.args and unparse(v.args[0]) == self.out_queue, "out_get")
+        lines = bound_names(fn, lambda v: isinstance(v, ast.Call) and call_name(v) == "SourceSink")
+        self.load_line = next((n for n in lines if any(isinstance(v.args[0], ast.Call) and call_name(v.args[0]) == "IterableSource" for v in assigned_value(fn, n) if v.args)), "load_line")
+        self.filter_line = next((n for n in lines if n != self.load_line), "filter_line")
+        self.filt_procs = name_bound(fn, lambda v: isinstance(v, ast.ListComp) and isinstance(v.elt, ast.Call) and call_name(v.elt) == "MyProcessLine", "filt_procs")
+        self.load_thread = name_bound(fn, lambda v: isinstance(v, ast.Call) and call_name(v) == "ThreadLine", "load_thread")
+        lt = assigned_value(fn, self.load_thread)
+        self.loader_cb = unparse(lt[0].args[1]) if lt and len(lt[0].args) > 1 else "loader_finished_or_failed"
+        fp = assigned_value(fn, self.filt_procs)
+        self.filter_cb = unparse(fp[0].elt.args[1]) if fp and isinstance(fp[0], ast.ListComp) and len(fp[0].elt.args) > 1 else "filter_finished_or_failed"
+
+
+ROLES = None
+
+
 def run(ctx):
+    global ROLES
     fn = ctx.fn(PMP, "Multiprocessor.filter")
+    ROLES = Roles(fn)
     r1_payload_vs_sentinel(ctx, fn)
     r2_pills(ctx, fn)
     r3_errors(ctx, fn)
@@ -77,10 +104,10 @@ def r1_payload_vs_sentinel(ctx, fn):
     cmp_ = [x for x in walk_shallow(rd) if isinstance(x, ast.Compare) and "self._poison" in unparse(x)]
     ok = bool(cmp_) and all(any(isinstance(s, ast.Break) for s in parent(_enclosing_if(c)).body) if _enclosing_if(c) is not None else False for c in cmp_)
     ctx.ob("C08.R1", SRC, "QueueSource.read", cmp_[0] if cmp_ else rd, "QueueSource ends the stream when it reads the pill", bool(cmp_), stmt="stop at pill")
-    for line_name, sink_name, what in (("load_line", "in_put", "in-queue"), ("filter_line", "out_put", "out-queue")):
+    for line_name, sink_name, what in ((ROLES.load_line, ROLES.in_put, "in-queue"), (ROLES.filter_line, ROLES.out_put, "out-queue")):
         call, parts = _line(fn, line_name)
         if call is None:
-            ctx.ob("C08.R1", PMP, "Multiprocessor.filter", fn, f"{line_name} is a single SourceSink pipeline", False, stmt=line_name)
+            ctx.ob("C08.R1", PMP, "Multiprocessor.filter", fn, f"the {what} pipeline is a single SourceSink", False, stmt=f"{what} pipeline")
             continue
         kinds = [(n, unparse(v) if v is not None else n) for n, v in parts]
         ok_sink = bool(kinds) and kinds[-1][0] == sink_name
@@ -91,10 +118,10 @@ def r1_payload_vs_sentinel(ctx, fn):
                ok_sink and encoded, detail={"pipeline": [k for _, k in kinds], "stage_before_sink": before},
                stmt=f"{what} payload encoding")
     # readers of the two queues use the default (None) poison => the encoder argument above is what separates them
-    for nm in ("in_get", "out_get"):
+    for nm, what in ((ROLES.in_get, "in-queue"), (ROLES.out_get, "out-queue")):
         vs = assigned_value(fn, nm)
         ok = len(vs) == 1 and call_name(vs[0]) == "QueueSource" and len(vs[0].args) == 1 and not vs[0].keywords
-        ctx.ob("C08.R1", PMP, "Multiprocessor.filter", vs[0] if vs else fn, f"{nm} reads its queue with the default poison", ok, stmt=f"{nm} reader")
+        ctx.ob("C08.R1", PMP, "Multiprocessor.filter", vs[0] if vs else fn, f"the {what} reader uses the default poison", ok, stmt=f"{what} reader")
     if ctx.thorough:
         # the logger queue of CobaMultiprocessor: payloads are log strings, pill is None written once in the finally
         cm = ctx.fn("coba/multiprocessing.py", "CobaMultiprocessor.filter")
@@ -129,22 +156,22 @@ def _callback(fn, name):
 def r2_pills(ctx, fn):
     ctx.rule("C08.R2", "input side: the loader callback writes [poison]*n_procs; output side: the only pill site is guarded by "
                        "'n_procs == 0' right after the decrement; restart and decrement are the two arms of one if/else")
-    lf = _callback(fn, "loader_finished_or_failed")
-    ff = _callback(fn, "filter_finished_or_failed")
+    lf = _callback(fn, ROLES.loader_cb)
+    ff = _callback(fn, ROLES.filter_cb)
     ctx.floor("C08.R2", "completion callbacks", (lf is not None) + (ff is not None), 2)
-    ws = [c for c in walk_shallow(lf) if isinstance(c, ast.Call) and unparse(c.func) == "in_put.write"]
+    ws = [c for c in walk_shallow(lf) if isinstance(c, ast.Call) and unparse(c.func) == f"{ROLES.in_put}.write"]
     ok = len(ws) == 1 and "[self._poison] * self._n_procs" in unparse(ws[0].args[0]) and not guards_of(enclosing_stmt(ws[0]), lf)
     ctx.ob("C08.R2", PMP, "Multiprocessor.filter.loader_finished_or_failed", ws[0] if ws else lf,
            "the loader always ends by writing one pill per worker lineage", ok, stmt="in-queue pills")
     np = _self_assigned(fn, "_n_procs")
     ctx.ob("C08.R2", PMP, "Multiprocessor.filter", fn, "the lineage counter starts at the number of processes",
            [unparse(v) for v in np] == ["self._max_processes"], stmt="_n_procs init")
-    procs = assigned_value(fn, "filt_procs")
+    procs = assigned_value(fn, ROLES.filt_procs)
     ok = len(procs) == 1 and isinstance(procs[0], ast.ListComp) and unparse(procs[0].generators[0].iter) == "range(self._n_procs)" \
-        and call_name(procs[0].elt) == "MyProcessLine" and unparse(procs[0].elt.args[0]) == "filter_line" and unparse(procs[0].elt.args[1]) == "filter_finished_or_failed"
+        and call_name(procs[0].elt) == "MyProcessLine" and unparse(procs[0].elt.args[0]) == ROLES.filter_line and unparse(procs[0].elt.args[1]) == ROLES.filter_cb
     ctx.ob("C08.R2", PMP, "Multiprocessor.filter", procs[0] if procs else fn, "exactly n_procs worker lineages are created, each with the completion callback", ok, stmt="filt_procs")
     # output pill
-    outw = [c for c in ast.walk(fn) if isinstance(c, ast.Call) and unparse(c.func) == "out_put.write"]
+    outw = [c for c in ast.walk(fn) if isinstance(c, ast.Call) and unparse(c.func) == f"{ROLES.out_put}.write"]
     ctx.floor("C08.R2", "out-queue pill sites", len(outw), 1)
     for c in outw:
         in_ff = ff is not None and c in list(ast.walk(ff))
@@ -172,7 +199,7 @@ def r2_pills(ctx, fn):
     ctx.ob("C08.R2", PMP, "Multiprocessor.filter.filter_finished_or_failed", decs[0] if decs else ff,
            "every finished worker does exactly one of restart / decrement(+pill at zero)", ok and arms_ok, stmt="restart xor decrement")
     for c in restarts:
-        ok = unparse(c.args[0]) == "worker.pipeline" and unparse(c.args[1]) == "filter_finished_or_failed" and isinstance(parent(c), ast.Attribute) and parent(c).attr == "start"
+        ok = unparse(c.args[0]) == "worker.pipeline" and unparse(c.args[1]) == ROLES.filter_cb and isinstance(parent(c), ast.Attribute) and parent(c).attr == "start"
         ctx.ob("C08.R2", PMP, "Multiprocessor.filter.filter_finished_or_failed", c, "the replacement worker runs the same pipeline with the same callback and is started", ok)
     # poisoned flag is what QueueSource sets when it consumed a pill
     rd = ctx.fn(SRC, "QueueSource.read")
@@ -187,7 +214,7 @@ def r2_pills(ctx, fn):
 
 def r3_errors(ctx, fn):
     ctx.rule("C08.R3", "both callbacks collect worker.exception; after the try/finally the first collected exception is raised")
-    for name in ("loader_finished_or_failed", "filter_finished_or_failed"):
+    for name in (ROLES.loader_cb, ROLES.filter_cb):
         cb = _callback(fn, name)
         ok = False
         for x in walk_shallow(cb):
@@ -208,7 +235,8 @@ def r3_errors(ctx, fn):
     # worker side: exceptions raised by the filter are sent back (ProcessLine.run)
     pr = ctx.fn(LNS, "ProcessLine.run")
     sends = [c for c in walk_shallow(pr) if isinstance(c, ast.Call) and unparse(c.func) == "self._send.send"]
-    ok = len(sends) == 1 and not guards_of(enclosing_stmt(sends[0]), pr) and unparse(sends[0].args[0]).startswith("(ex, tb,")
+    ok = len(sends) == 1 and not guards_of(enclosing_stmt(sends[0]), pr) and isinstance(sends[0].args[0], ast.Tuple) and len(sends[0].args[0].elts) == 3 \
+        and all(isinstance(e, ast.Name) for e in sends[0].args[0].elts[:2]) and "_poisoned" in unparse(sends[0].args[0].elts[2])
     tr = [x for x in pr.body if isinstance(x, ast.Try)]
     ok = ok and len(tr) == 1 and any(unparse(h.type) == "Exception" for h in tr[0].handlers if h.type is not None) and bool(tr[0].orelse)
     ctx.ob("C08.R3", LNS, "ProcessLine.run", sends[0] if sends else pr, "the worker always sends (exception, traceback, poisoned) back, whatever happened", ok, stmt="send result")
@@ -244,9 +272,11 @@ def r4_cleanup(ctx, fn):
     ctx.ob("C08.R4", PMP, "Stopper.stop", sp, "Stopper.stop only sets a flag (cannot raise, so the clean-up after it always runs)", trivial, stmt="Stopper.stop summary")
     g = CFG(fn, no_raise_calls={"self._load_stopper.stop"} if trivial else ())
     stops = set(nodes_where(g, lambda n: n.kind == "stmt" and has_call(n.ast, "self._load_stopper.stop")))
-    drains_in = set(nodes_where(g, lambda n: n.ast is not None and node_ast_for_effects(n) is not None and "in_queue.get_nowait()" in unparse(node_ast_for_effects(n))))
-    drains_out = set(nodes_where(g, lambda n: n.ast is not None and node_ast_for_effects(n) is not None and "out_queue.get_nowait()" in unparse(node_ast_for_effects(n))))
-    ys = nodes_where(g, lambda n: n.kind == "stmt" and isinstance(n.ast, ast.Expr) and isinstance(n.ast.value, ast.Yield) and unparse(n.ast.value.value) == "i")
+    drains_in = set(nodes_where(g, lambda n: n.ast is not None and node_ast_for_effects(n) is not None and f"{ROLES.in_queue}.get_nowait()" in unparse(node_ast_for_effects(n))))
+    drains_out = set(nodes_where(g, lambda n: n.ast is not None and node_ast_for_effects(n) is not None and f"{ROLES.out_queue}.get_nowait()" in unparse(node_ast_for_effects(n))))
+    consumer = [x for x in walk_shallow(fn) if isinstance(x, ast.For) and unparse(x.iter) == f"{ROLES.out_get}.read()"]
+    cvar = unparse(consumer[0].target) if consumer else "i"
+    ys = nodes_where(g, lambda n: n.kind == "stmt" and isinstance(n.ast, ast.Expr) and isinstance(n.ast.value, ast.Yield) and unparse(n.ast.value.value) == cvar)
     ctx.floor("C08.R4", "consumer yield sites", len(ys), 1)
     exits = {g.exit_return, g.exit_raise, g.exit_abandon}
     # failures *inside* the clean-up itself (a queue operation raising something other than Empty) are not part of
@@ -266,19 +296,19 @@ def r4_cleanup(ctx, fn):
             p = escape_path(g, y, via, exits, first_labels_skip=(), edge_ok=edge_ok)
             ctx.ob("C08.R4", PMP, "Multiprocessor.filter", g.nodes[y].ast, f"{what} on every way out of the consumer loop (end, error, abandonment)",
                    p is None and bool(via), detail=None if p is None else {"path": g.describe_path([y] + p)}, stmt=f"{what}")
-    starts = nodes_where(g, lambda n: n.kind == "stmt" and has_call(n.ast, "load_thread.start"))
+    starts = nodes_where(g, lambda n: n.kind == "stmt" and has_call(n.ast, f"{ROLES.load_thread}.start"))
     for s in starts:
         p = escape_path(g, s, stops, exits, first_labels_skip=())
         ctx.ob("C08.R4", PMP, "Multiprocessor.filter", g.nodes[s].ast, "once the loader was started every exit passes the clean-up", p is None and bool(stops),
                detail=None if p is None else {"path": g.describe_path([s] + p)})
     # drains are loops that end only on Empty
-    for nm in ("in_queue", "out_queue"):
+    for nm in (ROLES.in_queue, ROLES.out_queue):
         ok = False
         for x in walk_shallow(fn):
             if isinstance(x, ast.Try) and any(isinstance(s, ast.While) and unparse(s.test) == "True" and f"{nm}.get_nowait()" in unparse(s) for s in x.body) \
                     and any(h.type is not None and unparse(h.type) == "Empty" for h in x.handlers):
                 ok = True
-        ctx.ob("C08.R4", PMP, "Multiprocessor.filter", fn, f"{nm} is emptied until queue.Empty", ok, stmt=f"drain {nm}")
+        ctx.ob("C08.R4", PMP, "Multiprocessor.filter", fn, f"the {'in' if nm == ROLES.in_queue else 'out'}-queue is emptied until queue.Empty", ok, stmt=f"drain {'in' if nm == ROLES.in_queue else 'out'}-queue")
     st = ctx.fn(PMP, "Stopper.filter")
     ok = any(isinstance(x, ast.If) and unparse(x.test) == "self._stop" and any(isinstance(s, ast.Break) for s in x.body) for x in walk_shallow(st))
     ctx.ob("C08.R4", PMP, "Stopper.filter", st, "a stopped loader stops feeding items", ok, stmt="Stopper")
@@ -286,7 +316,7 @@ def r4_cleanup(ctx, fn):
 
 def r5_limit(ctx, fn):
     ctx.rule("C08.R5", "worker line: QueueSource(in) -> ... -> Unpickler -> Slice(None, maxtasksperchild) -> filter -> QueueSink(out)")
-    call, parts = _line(fn, "filter_line")
+    call, parts = _line(fn, ROLES.filter_line)
     kinds = [unparse(v) if v is not None else n for n, v in parts]
     idx = {k.split("(")[0]: i for i, k in enumerate(kinds)}
     ok = call is not None and "Unpickler" in idx and "Slice" in idx and idx["Unpickler"] < idx["Slice"] and \
@@ -309,12 +339,17 @@ def r6_inprocess(ctx, fn):
         if isinstance(x, ast.If) and unparse(x.test) == "self._max_processes == 1 and self._maxtasksperchild is None":
             ok = len(x.body) == 1 and unparse(x.body[0]) == "yield from Foreach(self._filter).filter(items)"
     ctx.ob("C08.R6", PMP, "Multiprocessor.filter", fn, "in-process arm: yield from Foreach(self._filter).filter(items)", ok, stmt="in-process arm")
-    call, parts = _line(fn, "filter_line")
+    call, parts = _line(fn, ROLES.filter_line)
     ok = any((unparse(v) if v is not None else n) == "Safe(Foreach(self._filter))" for n, v in parts)
     ctx.ob("C08.R6", PMP, "Multiprocessor.filter", call or fn, "workers apply Foreach(self._filter) as well", ok, stmt="worker arm")
     fe = ctx.fn(PMP, "Foreach.filter")
-    src = unparse(fe)
-    ok = "for item in items" in src and "self._pipe.filter(item)" in src and "yield from out" in src
+    loops = [x for x in walk_shallow(fe) if isinstance(x, ast.For) and unparse(x.iter) == "items"]
+    ok = False
+    if len(loops) == 1:
+        it = unparse(loops[0].target)
+        OUT = name_bound(fe, lambda v: unparse(v) == f"self._pipe.filter({it})", "out")
+        ys = [y for y in walk_shallow(loops[0]) if isinstance(y, ast.YieldFrom)]
+        ok = bool(assigned_value(fe, OUT)) and len(ys) == 1 and unparse(ys[0].value) == OUT and not any(isinstance(x, (ast.Break, ast.Continue)) for x in walk_shallow(loops[0]))
     ctx.ob("C08.R6", PMP, "Foreach.filter", fe, "Foreach applies the filter item by item and yields every output", ok, stmt="Foreach")
 
 
